@@ -1,6 +1,10 @@
 //! storesim: engine A (real `sierradb::Database` under a gated scheduler) and engine B
 //! (real `seglog` handles on a real file). One binary, dispatching on the property id.
 
+mod dbsim;
+mod gate;
+mod model;
+mod props_seq;
 mod seglogsim;
 mod util;
 
@@ -10,6 +14,9 @@ use simcore::{PropertyInfo, RunOutcome};
 
 struct StoreSim;
 
+const DB_REAL: &[&str] = &["sierradb::Database", "writer thread pool (real OS threads, gated at hook points)", "reader thread pool (1 thread)", "flusher pool + MPHF/bloom index files", "moka block cache", "bucket iterators", "seglog", "real files on tmpfs (/dev/shm)"];
+const DB_STUB: &[&str] = &["writer-pool syncer thread (the simulator sends the same FlushPoll at the deadlines the thread computes)", "kernel durability (fsync ledger + crash images built by the harness)"];
+const DB_ASSUME: &[&str] = &["reader_threads = 1 so reader job order is FIFO", "between two hook points a writer thread runs atomically", "a stream id is only used with partition keys of one bucket (stream lookup is per bucket)"];
 const SEGLOG_REAL: &[&str] = &["seglog::write::Writer", "seglog::read::Reader", "seglog::read::Iter", "seglog::parse::parse_record", "real file on tmpfs (/dev/shm)"];
 
 impl Engine for StoreSim {
@@ -19,6 +26,36 @@ impl Engine for StoreSim {
 
     fn properties() -> Vec<PropertyInfo> {
         vec![
+            PropertyInfo {
+                id: "C01",
+                level: "exploration",
+                rule: "seeded histories of 20-90 operations (valid, version-conflicting, key-conflicting, oversized, bad-timestamp-mid-transaction and I/O-failing appends; reopens; clock advances/jumps) on swarm configurations (1-4 buckets, min..1 MiB segments, compression, 6 sync policies, 4 cache sizes); at every acknowledgement: fsync-ledger check, immediate reads through 4 APIs, power-loss reopen (always right after a rollover / failed append, else sampled). Non-trivial = >=1 rollover and >=1 append that failed after writing records, both followed by an acknowledged append; distinct by (outcome sequence hash, model state hash).",
+                quick_runs: 1000,
+                thorough_runs: 40000,
+                real_components: DB_REAL,
+                stub_components: DB_STUB,
+                assumptions: DB_ASSUME,
+            },
+            PropertyInfo {
+                id: "C02",
+                level: "exploration",
+                rule: "seeded histories of 30-110 appends with every expectation kind right and wrong, repeated streams inside a transaction, several streams/partitions per bucket, expected partition sequences, same-bucket key conflicts, reopens and held/released index flushes; the reference model decides accept/reject class per append and the observable state (versions, sequences; full scans every 5th append, after reopen and at the end) is diffed after every step. Non-trivial = >=3 distinct rejection classes, an accepted repeated-stream transaction and a reopen or rollover between dependent appends.",
+                quick_runs: 1600,
+                thorough_runs: 40000,
+                real_components: DB_REAL,
+                stub_components: DB_STUB,
+                assumptions: DB_ASSUME,
+            },
+            PropertyInfo {
+                id: "C03",
+                level: "exploration",
+                rule: "seeded histories of accepted appends (records straddling the 64 KiB block, >2 KiB, >4 KiB, multi-event transactions) with 3-6 sweep checkpoints (index flush held, released, after reopen): for every stream and partition, start in {0..len+1 (all when len<=12, else boundaries + 8 sampled), transaction boundaries +-1, u64::MAX}, both directions, batch in {1,2,3,7,50,len+5}; forward must equal model[start..], reverse must be set-equal to model[..=start] with transaction-contiguous groups in decreasing order of their first position. Non-trivial = >=2 sealed segments, a multi-event transaction larger than a block, both cache hit and miss paths taken.",
+                quick_runs: 320,
+                thorough_runs: 12000,
+                real_components: DB_REAL,
+                stub_components: DB_STUB,
+                assumptions: DB_ASSUME,
+            },
             PropertyInfo {
                 id: "C17",
                 level: "fault_enumeration",
@@ -44,6 +81,9 @@ impl Engine for StoreSim {
 
     fn plan(prop: &str, tier: Tier, run_seed: u64) -> Value {
         match prop {
+            "C01" => props_seq::plan_c01(tier, run_seed),
+            "C02" => props_seq::plan_c02(tier, run_seed),
+            "C03" => props_seq::plan_c03(tier, run_seed),
             "C17" => seglogsim::plan_c17(tier, run_seed),
             "C18" => seglogsim::plan_c18(tier, run_seed),
             _ => unreachable!(),
@@ -52,6 +92,9 @@ impl Engine for StoreSim {
 
     fn execute(prop: &str, plan: &Value) -> RunOutcome {
         match prop {
+            "C01" => props_seq::run_seq("C01", plan),
+            "C02" => props_seq::run_seq("C02", plan),
+            "C03" => props_seq::run_seq("C03", plan),
             "C17" => seglogsim::exec_c17(plan),
             "C18" => seglogsim::exec_c18(plan),
             _ => unreachable!(),
@@ -61,7 +104,8 @@ impl Engine for StoreSim {
     fn init_process() {
         util::reap_stale_scratch();
         util::install_panic_hook();
-        seglogsim::install_window_sim();
+        util::raise_fd_limit();
+        let _ = gate::gate();
     }
 }
 
